@@ -217,6 +217,10 @@ impl<T: RefCnt, Cfg: Config> CaS<T> for HybridStrategy<Cfg> {
             let old = <Self as InnerStrategy<T>>::load(self, storage);
             // Observation of their inequality is enough to make a verdict
             if old.as_ptr() != current.as_raw() {
+                // Release the rejected value while `old` is still an ordinary local. Its
+                // destructor is user code and may panic; a panic after `old` has been moved into
+                // the return slot would leak it (and the debt slot it may occupy) for good.
+                drop(new);
                 return old;
             }
             // If they are still equal, put the new one in.
